@@ -63,11 +63,11 @@ class Module:
             self.inlined += _normalise(self.tree, normalise, role_names or set())
         if foreign_attrs is not None:
             from .inline import normalise_new, expand_context_managers
-            from .known_names import KNOWN
+            from .known_names import KNOWN, SHAPES
 
             if "contextmanager" in source:
                 self.inlined += expand_context_managers(self.tree, set(KNOWN.get(name, [])))
-            self.inlined += normalise_new(self.tree, set(KNOWN.get(name, [])), foreign_attrs)
+            self.inlined += normalise_new(self.tree, set(KNOWN.get(name, [])), foreign_attrs, set(SHAPES))
         self.imports: Dict[str, str] = {}
         self.funcs: Dict[str, "Func"] = {}
         self.classes: Dict[str, "Class"] = {}
@@ -420,6 +420,20 @@ class Program:
                     return self._canon(".".join([m.imports[head]] + rest), depth + 1)
                 return dotted
         return dotted
+
+    def func(self, qname: str) -> Optional[Func]:
+        """the function known under this dotted name - where it is defined, or where that name is imported from (a private
+        function moved to another module and imported back is still `old_module.name`)"""
+        f = self.funcs.get(qname)
+        if f is None:
+            f = self.funcs.get(self._canon(qname))
+        return f
+
+    def cls(self, qname: str) -> Optional[Class]:
+        c = self.classes.get(qname)
+        if c is None:
+            c = self.classes.get(self._canon(qname))
+        return c
 
     def resolve_name(self, scope: Union[Module, Func], name: str) -> Optional[str]:
         """Dotted target of a bare name as seen from scope (function-local imports and nested defs first)."""
